@@ -92,10 +92,18 @@ def run(ctx):
     drv = ctx.driver
     known_seen = {}
 
-    def correspond(prog, stream):
+    def model_runs(progs):
+        """the Lean `emit` on many programs, in batched driver round trips"""
+        out = []
+        for k in range(0, len(progs), 100):
+            out += drv.batch([{"op": "sdk.run", "p": q} for q in progs[k:k + 100]])
+        return out
+
+    def correspond(prog, stream, m=None, real=None):
         res.evaluations += 1
-        m = drv.call({"op": "sdk.run", "p": prog})
-        r = H.RealRun(execute=False).run(prog)
+        if m is None:
+            m = drv.call({"op": "sdk.run", "p": prog})
+        r = real if real is not None else H.RealRun(execute=False).run(prog)
         d = H.compare_syntactic(prog, r, m)
         res.count("syn:" + stream)
         if d is not None:
@@ -107,11 +115,11 @@ def run(ctx):
                 prog = small
             res.disagreements.append({"stream": "sdk." + stream, "input": prog, "model": d, "code": "real SDK differs"})
 
-    def check_oracle(prog, outs, stream):
+    def check_oracle(prog, outs, stream, keep=None, interfere=False):
         res.evaluations += 1
         if sum(1 for x in res.failures if x["kf"] is None) >= 20:
             return  # broken tree: enough failing inputs collected, keep the run time bounded
-        st, det = H.oracle(prog, outs)
+        st, det = H.oracle(prog, outs, keep=keep, interfere=interfere)
         res.count("oracle:" + st)
         if st == "invalid":
             res.count("invalid:" + det.split(" ")[0])
@@ -139,13 +147,13 @@ def run(ctx):
             small = prog
             if sum(1 for x in res.failures if x["kf"] is None) < 3:
                 def fails(q):
-                    s2, d2 = H.oracle(q, outs)
+                    s2, d2 = H.oracle(q, outs, interfere=interfere)
                     if s2 != "fail":
                         return False
                     c2 = {}
                     return any(x["feature"] == feat and H.tag_known(q, outs, x, c2) is None for x in d2)
                 small = H.shrink(prog, fails, 250)
-                s3, d3 = H.oracle(small, outs)
+                s3, d3 = H.oracle(small, outs, interfere=interfere)
                 untagged = [x for x in (d3 or []) if x["feature"] == feat] or untagged
             res.failures.append({"what": untagged[0]["what"], "kf": None,
                                  "input": {"program": small, "outcomes": outs, "detail": untagged[:3],
@@ -171,24 +179,24 @@ def run(ctx):
         correspond(prog, "corpus-" + name)
         check_oracle(prog, outs + [0] * 64, "corpus-" + name)
 
-    # -- syntactic stream
-    nS = 32000 if ctx.thorough else 4000
-    progs = []
-    for i in range(nS):
-        prog = H.Gen(rng, max_depth=4, max_stmts=30).program()
-        correspond(prog, "random")
-        if i < (16000 if ctx.thorough else 1700):
-            progs.append(prog)
-        if len(res.samples) < 2 and i % 100 == 3:
-            res.samples.append({"program": prog})
-    for _ in range(6000 if ctx.thorough else 800):
-        correspond(H.wild_program(rng), "adversarial")
+    # -- programs: the first `nO` of the random ones also go through the oracle and the semantic cross-checks
+    nS = 32000 if ctx.thorough else 3600
+    nO = 16000 if ctx.thorough else 1400
+    rand = [H.Gen(rng, max_depth=4, max_stmts=30).program() for _ in range(nS)]
+    wild = [H.wild_program(rng) for _ in range(6000 if ctx.thorough else 700)]
+    res.samples += [{"program": q} for q in rand[3:300:100]][:2]
+    models = model_runs(rand)
+    for q, m in zip(wild, model_runs(wild)):
+        correspond(q, "adversarial", m)
+    for q, m in zip(rand[nO:], models[nO:]):
+        correspond(q, "random", m)
 
-    # -- oracle stream on the same programs, scripted outcomes; the Lean HostSem against the direct
-    #    Python interpreter on all of them, the Lean ProtoExec against the real Executor on every 4th
-    def cross(fn, name, prog, outs):
+    # -- oracle stream, scripted outcomes; the Lean HostSem against the direct Python interpreter on all of
+    #    them, the Lean ProtoExec against the real Executor on every 4th. The executed run of the real SDK also
+    #    serves the syntactic comparison and the ProtoExec cross-check (same proto-subroutines, same snapshots).
+    def cross(fn, name, prog, outs, **kw):
         res.evaluations += 1
-        st, det = fn(drv, prog, outs)
+        st, det = fn(drv, prog, outs, **kw)
         res.count(name + ":" + st)
         if st == "differ":
             small = prog
@@ -198,22 +206,46 @@ def run(ctx):
             res.disagreements.append({"stream": "sdk." + name, "input": {"program": small, "outcomes": outs},
                                       "model": det, "code": "see model field"})
 
-    for i, prog in enumerate(progs):
-        outs = [rng.randrange(2) for _ in range(64)]
-        check_oracle(prog, outs, "random")
-        cross(H.cross_hsem, "hostsem-vs-direct", prog, outs)
+    outss = [[rng.randrange(2) for _ in range(64)] for _ in range(nO)]
+    hress = []
+    for k in range(0, nO, 100):
+        hress += drv.batch([{"op": "sdk.hsem", "p": q, "outs": o, "fuel": 4000}
+                            for q, o in zip(rand[k:k + 100], outss[k:k + 100])])
+    for i in range(nO):
+        prog, outs, m = rand[i], outss[i], models[i]
+        keep = {}
+        check_oracle(prog, outs, "random", keep=keep)
+        real = keep.get("real")
+        if real is not None and real.err is None:
+            correspond(prog, "random", m, real=real)
+        else:
+            correspond(prog, "random", m)
+        cross(H.cross_hsem, "hostsem-vs-direct", prog, outs, model=m, hres=hress[i])
         if i % 4 == 0:
-            cross(H.cross_exec, "protoexec-vs-executor", prog, outs)
+            cross(H.cross_exec, "protoexec-vs-executor", prog, outs,
+                  real=real if (real is not None and real.exec_err is None and real.err is None) else None)
+
+    # -- two connections in one process: while this program is being built, another connection measures and
+    #    flushes between any two of its top-level statements; several register outcomes per subroutine
+    for _ in range(400 if ctx.thorough else 30):
+        g = H.Gen(rng, max_depth=2, max_stmts=10)
+        core = [t for t in g.program(n_top=rng.choice([1, 2, 3]), flush_p=0.0) if t["k"] != "flush"]
+        regs = [{"k": "qop", "g": [rng.randrange(7)], "t": {"k": "reg"}} for _ in range(rng.choice([2, 3, 4]))]
+        prog = core + regs + [{"k": "flush"}]
+        check_oracle(prog, [rng.randrange(2) for _ in range(64)], "second-connection-interleaved", interfere=True)
 
     # -- small programs: every flush placement, both streams
-    nSmall = 500 if ctx.thorough else 45
+    nSmall = 500 if ctx.thorough else 36
     for _ in range(nSmall):
         g = H.Gen(rng, max_depth=3, max_stmts=12)
         core = [t for t in g.program(n_top=rng.choice([2, 3, 4]), flush_p=0.0) if t["k"] != "flush"][:6]
         outs = [rng.randrange(2) for _ in range(64)]
-        for p in _all_flush_placements(core):
-            correspond(p, "all-flush-placements")
-            check_oracle(p, outs, "all-flush-placements")
+        places = list(_all_flush_placements(core))
+        for p, m in zip(places, model_runs(places)):
+            keep = {}
+            check_oracle(p, outs, "all-flush-placements", keep=keep)
+            real = keep.get("real")
+            correspond(p, "all-flush-placements", m, real=real if (real is not None and real.err is None) else None)
     return res
 
 
@@ -221,6 +253,6 @@ def replay(ctx, payload):
     from harness import sdk as H
     inp = payload.get("failure", {}).get("input", {})
     prog, outs = inp.get("program"), inp.get("outcomes", []) + [0] * 64
-    st, det = H.oracle(prog, outs)
+    st, det = H.oracle(prog, outs, interfere=inp.get("stream") == "second-connection-interleaved")
     print("replay:", st, json.dumps(det)[:1500])
     return 1 if st == "fail" else 0
